@@ -241,3 +241,15 @@ c.properties = ("C13", "C09")
 c.note = ("the set `variable_names` is a comprehension over the keys of dependents(); its membership is characterised "
           "by the auto-generated comprehension definition (used-but-undefined names); the result is a function of that set")
 c.raises = {"GotranxError": "maybe"}
+
+# ----------------------------------------------------------------------------- ODE.__eq__ (C10)
+contract(
+    O + "__eq__", params={"self": "ODE", "__o": "ODE"}, ret="Bool",
+    ensures={"independent_of_component_order":
+             "result == (__o.comments == self.comments and "
+             "sorted(__o.components, key=lambda c: c.name) == sorted(self.components, key=lambda c: c.name) and "
+             "__o.name == self.name)"},
+    properties=("C10",),
+    note="components are compared after sorting by name: the order of first occurrence in the text is not part of the model "
+         "(sorted() of a sequence is assumed to be invariant under permutation for an injective key)",
+)
